@@ -1,53 +1,46 @@
 #!/usr/bin/env python3
-"""tools/ai.py <cfg>/<mode> <fn regex> <argspec>... : run the abstract interpreter on one function (debug aid)
-argspec: fe51:<bits> | fe2625:<excess> | u64:<lo>:<hi> | top | bytes32 | bytes64 | i8x64:<lo>:<hi>"""
+"""tools/ai.py <cfg>/<mode> <backend u64|u32> <fn regex> [<param index>=<spec> ...] : abstract-interpret one function with the type
+invariants as inputs (debug aid).  spec: fe:<excess> | <int type>:<lo>:<hi> | top | bytes<N>"""
 import sys, os, re, time
 sys.path.insert(0, os.path.join(os.path.dirname(os.path.abspath(__file__)), "..", "lib"))
 import extract, facts
 from absint import *
-from absint_models import Models
-
-def spec(s):
-    p = s.split(":")
-    if p[0] == "fe51":
-        b = float(p[1]); return ("st", (("arr", (I(0, int(2**b) - 1),) * 5),))
-    if p[0] == "fe2625":
-        b = float(p[1]); return ("st", (("arr", tuple(I(0, int(2**((26 if i % 2 == 0 else 25) + b)) - 1) for i in range(10))),))
-    if p[0] == "bytes32":
-        return ("arr", (I(0, 255),) * 32)
-    if p[0] == "bytes64":
-        return ("arr", (I(0, 255),) * 64)
-    if p[0] == "scalar":
-        return ("st", (("arr", (I(0, 255),) * 31 + (I(0, int(p[1]) if len(p) > 1 else 127),)),))
-    if p[0] == "sc52":
-        return ("st", (("arr", (I(0, 2**int(p[1]) - 1),) * 5),))
-    if p[0] == "top":
-        return TOP
-    if p[0] in INT_TYPES:
-        return I(int(p[1]), int(p[2]))
-    if p[0] == "i8x64":
-        return ("arr", (I(int(p[1]), int(p[2])),) * 64)
-    raise SystemExit("bad spec " + s)
+from eng_absint import Driver, within
 
 km = tuple(sys.argv[1].split("/"))
+backend = sys.argv[2]
 dirs, failed, th = extract.ensure([km], verbose=False)
 F = facts.Facts(dirs[km])
-pat = sys.argv[2]
+pat = sys.argv[3]
 fs = [f for k, f in F.fns.items() if "mir" in f and (re.search(pat, k) or re.search(pat, f["path"]))]
 if len(fs) != 1:
     print("matches:", [f["key"] for f in fs][:20]); sys.exit(1)
 f = fs[0]
-ip = Interp(F, Models())
-vals = [spec(s) for s in sys.argv[3:]]
+D = Driver(F, backend)
+ov = {}
+for s in sys.argv[4:]:
+    i, sp = s.split("=")
+    p = sp.split(":")
+    if p[0] == "fe":
+        v = D.inv.fe(float(p[1]))
+    elif p[0] == "top":
+        v = TOP
+    elif p[0].startswith("bytes"):
+        v = ("arr", (I(0, 255),) * int(p[0][5:]))
+    else:
+        v = I(int(p[1]), int(p[2]))
+    ov[int(i) - 1] = v
 t0 = time.time()
-ret, root = ip.run_root(f, vals)
-print("fn", f["path"], "steps", ip.steps, "%.2fs" % (time.time() - t0))
-print("ret:", show_val(ret, 4))
-for i, v in root.items():
-    print("root[%d]:" % i, show_val(v, 4))
-bad = [o for o in ip.obl.values() if not o.ok]
-print("obligations:", len(ip.obl), "unproved:", len(bad))
+ret = D.run_root(f, ov)
+print("fn", f["path"], "steps", D.ip.steps, "%.2fs" % (time.time() - t0))
+print("ret:", show_val(ret, 5)[:600] if ret is not None else None)
+for x in D.skipped + D.errors:
+    print("SKIP/ERR", x[1])
+for (g, k, ok, why, v) in D.ret_obl:
+    print("ret-obligation", k, ok, why)
+bad = [o for o in D.ip.obl.values() if not o.ok]
+print("obligations:", len(D.ip.obl), "unproved:", len(bad))
 for o in bad[:40]:
-    print("  UNPROVED", o.fn["path"].split("::")[-1], o.kind, o.detail, o.loc, "|", o.why[:150])
-if ip.unmodelled:
-    print("unmodelled:", sorted(ip.unmodelled.items(), key=lambda x: -x[1])[:30])
+    print("  UNPROVED", o.fn["path"].split("::")[-1], o.kind, o.detail, o.loc.split("/")[-1], "|", o.why[:160])
+if D.ip.unmodelled:
+    print("unmodelled:", sorted(D.ip.unmodelled.items(), key=lambda x: -x[1])[:30])
